@@ -40,6 +40,15 @@ PROFILES = {
     "R2": (P("CRG", 2, 0, "gen", True, ["relabel_copy"], "all", True), P("CRG", 3, 0, "gen", True, ["relabel_copy"], "all", True)),
     "R3": (P("SMG", 4, 0, "stereo", True, ["relabel_copy"], "all", True), P("SMG", 4, 1, "stereo", True, ["relabel_copy"], "all", True)),
     "R4": (P("SCRG", 4, 0, "stereo", True, ["relabel_copy"], "all", True), P("SCRG", 4, 1, "stereo", True, ["relabel_copy"], "all", True)),
+    # enantiomer (C06), JSON (C15), reactant/product/reverse (C08) from every state within MaxA edits of the seeds
+    "X3": (P("SMG", 4, 1, "stereo", False, ["enantiomer"], "none", True), P("SMG", 4, 2, "stereo", False, ["enantiomer"], "none", True)),
+    "X4": (P("SCRG", 4, 1, "stereo", False, ["enantiomer"], "none", True), P("SCRG", 4, 2, "stereo", False, ["enantiomer"], "none", True)),
+    "J1": (P("MG", 3, 1, "gen", False, ["json_roundtrip"], "none", False), P("MG", 3, 2, "gen", False, ["json_roundtrip"], "none", False, gen_n=3)),
+    "J2": (P("CRG", 3, 1, "gen", False, ["json_roundtrip"], "none", False), P("CRG", 3, 2, "gen", False, ["json_roundtrip"], "none", False)),
+    "J3": (P("SMG", 4, 1, "stereo", False, ["json_roundtrip"], "none", False), P("SMG", 4, 2, "stereo", False, ["json_roundtrip"], "none", False)),
+    "J4": (P("SCRG", 4, 1, "stereo", False, ["json_roundtrip"], "none", False), P("SCRG", 4, 2, "stereo", False, ["json_roundtrip"], "none", False)),
+    "V2": (P("CRG", 3, 0, "gen", False, ["reactant", "product", "reverse"], "none", True), P("CRG", 3, 2, "gen", False, ["reactant", "product", "reverse"], "none", True)),
+    "V4": (P("SCRG", 4, 0, "stereo", False, ["reactant", "product", "reverse"], "none", True), P("SCRG", 4, 2, "stereo", False, ["reactant", "product", "reverse"], "none", True)),
     # subgraph / compose / components (C17)
     "S1": (P("MG", 3, 0, "gen", True, ALGEBRA, "none", True),
            P("MG", 3, 1, "gen", True, ALGEBRA, "none", True)),
@@ -60,6 +69,9 @@ PROP_PROFILES = {
     "C10": ["D1", "D2", "D3", "D4"],
     "C11": ["R1", "R2", "R3", "R4"],
     "C17": ["S1", "S2", "S3", "S4"],
+    "C06": ["X3", "X4"],
+    "C15": ["J1", "J2", "J3", "J4"],
+    "C08": ["V2", "V4"],
 }
 
 
@@ -232,6 +244,19 @@ def _gen(t):
 
 def run(prop: str, tier: str) -> int:
     rep = Reporter(prop, tier)
+    cov = collect(prop, tier, rep)
+    return rep.finish("model_checking", cov, ASSUMPTIONS)
+
+
+ASSUMPTIONS = [
+    "the reference semantics of every public operation is spec/SMGEdit.tla (Outcomes); under-specified behaviour is an "
+    "explicit set of allowed outcomes",
+    "bounded universes (3-4 identifiers, 2 elements, one attribute, fixed descriptor menu); depth bound per profile",
+    "only public views are projected; descriptors are compared literally (class, atom tuple, parity)",
+]
+
+
+def collect(prop: str, tier: str, rep: Reporter, with_traces=True) -> dict:
     names = PROP_PROFILES[prop]
     results = run_profiles(names, tier)
     states = trans = replayed = 0
@@ -261,7 +286,7 @@ def run(prop: str, tier: str) -> int:
                 rep.violation(f"{prop}|{f['sig']}", f["what"], {"profile": r["name"], **f["detail"]})
     # ---------------- code -> spec: random histories validated by TLC ----------------
     from . import drive
-    n_steps = {"quick": 6000, "thorough": 150000}[tier]
+    n_steps = {"quick": 6000, "thorough": 150000}[tier] if with_traces else 0
     t_tr = time.time()
     chunk = 30000
     n_rec = n_ok = n_undriven = 0
@@ -315,9 +340,4 @@ def run(prop: str, tier: str) -> int:
         "samples": samples[:6],
         "exhaustive": False,
     }
-    return rep.finish("model_checking", cov, [
-        "the reference semantics of every public operation is spec/SMGEdit.tla (Outcomes); under-specified behaviour is an "
-        "explicit set of allowed outcomes",
-        "bounded universes (3-4 identifiers, 2 elements, one attribute, fixed descriptor menu); depth bound per profile",
-        "only public views are projected; descriptors are compared literally (class, atom tuple, parity)",
-    ])
+    return cov
